@@ -64,6 +64,8 @@ func NewSys(meta Meta, seed int64, init any) (Sys, error) {
 		return newTCPSys(meta, seed, init)
 	case "clienttxn":
 		return newClientTxnSys(meta, seed, init)
+	case "steps":
+		return newStepsSys(meta, seed, init)
 	case "framer", "bindreply":
 		return newFramerSys(meta, seed, init)
 	}
@@ -257,6 +259,7 @@ type World struct {
 	staleNonce       string
 	noRetry          bool
 	down             bool
+	gate             func(point string) // Engine G: call-outs park here
 	evSeen           int
 	step             int
 	gen              *memGen
@@ -427,6 +430,9 @@ func NewWorld(meta Meta, seed int64) (*World, error) {
 		denied[d[0]+"|"+d[1]] = true
 	}
 	permHandler := func(clientAddr net.Addr, peerIP net.IP) bool {
+		if w.gate != nil {
+			w.gate("callout.grant")
+		}
 		c := w.clientName(clientAddr)
 		i := w.ipName(peerIP)
 
@@ -544,15 +550,24 @@ func (w *World) eventHandler() turn.EventHandler {
 			w.ev("alloc+", w.clientName(src)+"|"+user+"|"+relay.String())
 		},
 		OnAllocationDeleted: func(src, _ net.Addr, _, user, _ string) {
+			if w.gate != nil {
+				w.gate("callout.allocdeleted")
+			}
 			w.ev("alloc-", w.clientName(src)+"|"+user)
 		},
 		OnPermissionCreated: func(src, _ net.Addr, _, _, _ string, _ net.Addr, peer net.IP) {
+			if w.gate != nil {
+				w.gate("callout.permcreated")
+			}
 			w.ev("perm+", w.clientName(src)+"|"+w.ipName(peer))
 		},
 		OnPermissionDeleted: func(src, _ net.Addr, _, _, _ string, _ net.Addr, peer net.IP) {
 			w.ev("perm-", w.clientName(src)+"|"+w.ipName(peer))
 		},
 		OnChannelCreated: func(src, _ net.Addr, _, _, _ string, _, peer net.Addr, n uint16) {
+			if w.gate != nil {
+				w.gate("callout.chancreated")
+			}
 			w.ev("chan+", fmt.Sprintf("%s|%v|%d", w.clientName(src), w.peerName(peer), n))
 		},
 		OnChannelDeleted: func(src, _ net.Addr, _, _, _ string, _, peer net.Addr, n uint16) {
